@@ -59,14 +59,14 @@ def c09_terminates(k: int) -> bool:
 
         def run():
             lab, outcome, salt = P.run_case(spec, choose, limits, leaf_limits, mid_limits, early=early, symbolic=True,
-                                            with_bad=bool(with_bad))
-            return check_c09(lab, outcome, spec, bool(with_bad), salt) is None
+                                            with_bad=int(with_bad), hog_limits=L._hog(limits))
+            return check_c09(lab, outcome, spec, int(with_bad), salt) is None
         return native(run)
     return guard(body, k=k)
 
 
 CONDITIONS = [
-    Condition(c09_terminates, slices=L._Q, thorough_slices=L._T, timeout=200, thorough_timeout=2400,
+    Condition(c09_terminates, slices=L._Q, thorough_slices=L._T, timeout=300, thorough_timeout=2400,
               bounds=L.CONDITIONS[0].bounds),
 ]
 
